@@ -1,14 +1,18 @@
-"""C08: a note is a one-way flag set by notify, by its deadline, or by an ancestor (sequential half)."""
+"""C08: a note is a one-way flag set by notify, by its deadline, or by an ancestor."""
 from checks import e3check
 
-QUICK = ['ns_h_expiry_R1', 'ns_h_new_under_notified_R1']
-THOROUGH = ['ns_h_notify_child_R1', 'ns_h_notify_root_R1', 'note_notifyroot_pollchild_R3']
+QUICK = ['ns_h_expiry_R1', 'ns_h_new_under_notified_R1', 'notep_newunderroot_notifyroot_R2']
+THOROUGH = ['ns_h_notify_child_R1', 'ns_h_notify_root_R1', 'notep_notifyroot_pollchild_R2', 'notep_newunderroot_notifyroot_R3', 'notep_notifyroot_pollchild_R3', 'note_notifyroot_pollchild_R3']
 scenarios, jobs, confirm, info = e3check.make('C08', QUICK, THOROUGH,
-    'SEQUENTIAL HALF ONLY. harness/e3/note_seq.c, one thread, one context, loops unrolled: a tree root -> child -> grand plus a sibling is built by the real nsync_note_new with solver-chosen deadlines from '
+    'SEQUENTIAL HALF: harness/e3/note_seq.c, one thread, one context, loops unrolled: a tree root -> child -> grand plus a sibling is built by the real nsync_note_new with solver-chosen deadlines from '
     '{none, 100 s, 200 s, 300 s} (clock frozen at 0): nsync_note_expiry of every note equals the minimum of the deadlines on its path to the root; nothing is notified at creation; a note created under a '
     'notified parent is born notified; [thorough] nsync_note_notify(child) returns with child and grandchild notified and root and sibling untouched; notify(root) reaches every descendant. '
-    'The concurrent half (interleavings of notifiers, pollers and waiters; deadline-driven notification) is NOT decided: the two-thread note scenarios produce programs beyond the bounded model checker\'s reach '
-    '(one of them is attempted as an optional query in the thorough tier).',
+    'CONCURRENT HALF, within a stated cut (scenarios notep_*): two threads of harness/e3/note_basic.c interleaved at every atomic operation with R contexts each - nsync_note_new(root) against '
+    'nsync_note_notify(root): whatever the interleaving, once both have returned the new note is notified; [thorough] a poller never sees the child go from notified to un-notified while the root is '
+    'being notified. In the notep_* scenarios the CONTENDED paths of the note mutexes (nsync_mu_lock_slow_, nsync_mu_unlock_slow_ and the waiter allocation in front of them) are PRUNED: only schedules in '
+    'which no thread ever finds a note mutex held are explored (a try-lock that fails is explored; a blocking lock of a held mutex is not). The unpruned two-thread programs (note_*) are beyond the '
+    'bounded model checker\'s reach here (one is attempted as an optional query in the thorough tier).',
     ['nsync_note_new', 'nsync_note_expiry', 'nsync_note_is_notified', 'nsync_note_notified_deadline_', 'nsync_note_notify', 'notify', 'note_notify_child'],
-    ['every concurrent behaviour of notes', 'deadlines in the past / expiring during the run (the lazy-expiry notify is asserted unreachable under the frozen clock)'])
+    ['schedules in which a thread blocks on a held note mutex (pruned in the concurrent scenarios)', 'more than two threads on related notes',
+     'deadlines in the past / expiring during the run in the sequential harnesses (the lazy-expiry notify is asserted unreachable under the frozen clock)'])
 WORKERS = 4
